@@ -42,6 +42,8 @@ GOALS = [
     [["<", ["*", "2", ["g"]], ["-", ["f", "o1"], ["g"]]], [">=", ["-", "1", "0.5"], ["g"]], ["p", "o1"]],
     # literals of one predicate that are not next to each other, a predicate three times
     [["p", "o1"], ["q", "o1", "o2"], ["p", "o3"], ["r"], ["q", "o2", "o2"], ["p", "k"]],
+    # round 20: constants with five and more significant digits, within the printer's four decimals
+    [[">=", ["f", "o1"], "12.345"], ["<", ["g"], "1234.5"], ["<=", ["-", ["f", "o1"], "0.0625"], "-100.125"]],
 ]
 OBJECT_SETS = [dict(G.OBJECTS), {"o1": "t1", "o2": "t1", "o3": "t3", "u1": "t2", "u2": "t2", "o4": "t3"},
                # objects of the root type declared before / between objects of proper types (a bare name in a typed list
@@ -185,6 +187,41 @@ def compare_spec(task, truth, values, back, problems, obligations):
     nb = Counter(_norm_num(t.to_pddl()) for t in back.goal_state_fluents)
     if nb != nums:
         problems.append(f"numeric goal conditions differ from the declared ones: parsed {sorted(nb.elements())} declared {sorted(nums.elements())}")
+    # the constants of the numeric goals read from the tree's own leaves (not through the library's printer, which a
+    # change of the number format would carry along on both sides)
+    want_c = sorted(x for g in task["goal"] if g[0] in ("=", "<=", ">=", "<", ">") for x in _numerals(g))
+    got_c = _leaf_constants(back.goal_state_fluents)
+    if got_c is not None and got_c != want_c and not any("numeric goal conditions differ" in p for p in problems):
+        problems.append(f"constants of the numeric goal conditions differ from the declared ones: parsed {got_c} declared {want_c}")
+
+
+def _numerals(x):
+    """numerals among the operands of [head, operand, ...] (argument names of fluents are never numerals here)"""
+    if isinstance(x, list):
+        return [v for y in x[1:] for v in _numerals(y)]
+    return _num_tok(x)
+
+
+def _num_tok(tok):
+    try:
+        return [float(tok)]
+    except ValueError:
+        return []
+
+
+def _leaf_constants(trees):
+    from pddl_plus_parser.models import PDDLFunction
+    out = []
+    for t in trees:
+        for node in [t.root, *t.root.descendants]:
+            if node.is_leaf and not isinstance(node.value, PDDLFunction):
+                if isinstance(node.value, SymReal):
+                    return None
+                try:
+                    out.append(float(node.value))
+                except (TypeError, ValueError):
+                    return None
+    return sorted(out)
 
 
 PROBE_VALUES = [1.25e-05, 4e-08, 123456789.125, -0.000123456789, 1e+16, 0.1 + 0.2, -2.5e-07, 1234567.0]
